@@ -71,7 +71,14 @@ class BitBuffer:
 
     def flush(self) -> None:
         if self._type is not None:
-            self._type._write(self.stream, self._buffer)
+            value = self._buffer
+            bits = self._type.size * 8
+            packchar = getattr(self._type, "packchar", None)
+            signed = packchar.islower() if packchar else getattr(self._type, "signed", False)
+            if signed and value >> (bits - 1) == 1:
+                # The buffer holds the unit as an unsigned number, a signed storage type expects two's complement
+                value -= 1 << bits
+            self._type._write(self.stream, value)
         self._type = None
         self._remaining = 0
         self._buffer = 0
